@@ -172,8 +172,10 @@ class Atmo:  # pylint: disable=too-many-instance-attributes
         Returns:
             pressure in hPa
         """
-        p = self._p0 * math.pow(1 + cLapseRateKperFoot * (altitude - self._a0) / (self._t0 + cDegreesCtoK),
-                                cPressureExponent)
+        # The linear lapse-rate model reaches absolute zero about 145 000 ft above the station; beyond that the base of
+        # the power is negative and math.pow raised "math domain error" out of fire().  No air is left there.
+        base = max(0.0, 1 + cLapseRateKperFoot * (altitude - self._a0) / (self._t0 + cDegreesCtoK))
+        p = self._p0 * math.pow(base, cPressureExponent)
         return p
 
     def get_density_factor_and_mach_for_altitude(self, altitude: float) -> Tuple[float, float]:
